@@ -50,6 +50,11 @@ class CachingStreamWrapper(io.IOBase):
 
         read_from_raw = self._raw.read(n)
 
+        if read_from_raw is None:
+            # non-blocking stream has no data at the moment: hand out
+            # what the cache holds (a short read) or signal the same
+            return read_from_cache or None
+
         self._cache.write(read_from_raw)
 
         return read_from_cache + read_from_raw
